@@ -1,6 +1,7 @@
 package main
 
 import (
+	"bytes"
 	"encoding/hex"
 	"encoding/json"
 	"fmt"
@@ -105,6 +106,31 @@ func init() {
 		var b2 bscript.Script
 		if err := json.Unmarshal(js, &b2); err != nil {
 			return "unjson-err"
+		}
+		// destinations that already hold a script (longer, equal, shorter; a struct field; a slice element the decoder
+		// reuses): the decoded value is the new script, nothing of the old one
+		var bad []byte
+		for _, old := range [][]byte{bytes.Repeat([]byte{0x6a}, len(*s)+7), bytes.Repeat([]byte{0x51}, len(*s)), {0xac}} {
+			dst := bscript.Script(append([]byte{}, old...))
+			if err := json.Unmarshal(js, &dst); err != nil {
+				return "unjson-err"
+			}
+			holder := struct{ S bscript.Script }{S: append([]byte{}, old...)}
+			if err := json.Unmarshal([]byte(`{"S":`+string(js)+`}`), &holder); err != nil {
+				return "unjson-err"
+			}
+			list := []bscript.Script{append([]byte{}, old...), append([]byte{}, old...)}
+			if err := json.Unmarshal([]byte(`[`+string(js)+`,`+string(js)+`]`), &list); err != nil || len(list) != 2 {
+				return "unjson-err"
+			}
+			for _, got := range [][]byte{dst, holder.S, list[0], list[1]} {
+				if bad == nil && !bytes.Equal(got, b2) {
+					bad = append([]byte{}, got...) // the first populated-destination result that differs is the one reported
+				}
+			}
+		}
+		if bad != nil {
+			b2 = bad
 		}
 		return fmt.Sprintf("%s %s back=%s jback=%s", h, string(js), hex.EncodeToString(*b1), hex.EncodeToString(b2))
 	}
